@@ -85,6 +85,12 @@ var special = []string{
 	`forbid (principal, action, resource) when { context.a is User in context.b };`,
 	`permit (principal, action, resource) when { (context has b && context.b) || principal == User::"a" };`,
 	`permit (principal, action, resource) when { (if context has a then context.a else context).a == 1 };`,
+	`permit (principal, action, resource) when { context.a == [User::"a"] };`,
+	`forbid (principal, action, resource) when { context.a != [1] };`,
+	`permit (principal, action, resource) when { context.a == 1 };`,
+	`permit (principal, action, resource) when { context.a == "1" || context.b == true };`,
+	`permit (principal, action, resource) when { context.b.a == [principal, User::"a"] };`,
+	`permit (principal, action, resource) when { [context.a, 1] == [1] };`,
 }
 
 func varsIn(v types.Value, names map[types.String]bool, out map[types.String]bool) {
@@ -247,6 +253,15 @@ func genScenario(r *core.Run) *scenario {
 		default:
 			for i := 0; i < l; i++ {
 				vals = append(vals, g.Value(1))
+			}
+			if l >= 2 && r.T.Intn(4) == 3 {
+				// values of different types that print alike
+				pairs := [][2]types.Value{{types.Long(1), types.String("1")}, {types.True, types.String("true")}, {types.NewEntityUID("User", "a"), types.String(`User::"a"`)}, {types.Long(0), types.String("0")}}
+				pr := pairs[r.T.Intn(len(pairs))]
+				if r.T.Bool() {
+					pr[0], pr[1] = pr[1], pr[0]
+				}
+				vals[0], vals[1] = pr[0], pr[1]
 			}
 		}
 		if l > 0 && size*l > 64 {
